@@ -45,6 +45,12 @@ CHECKS = {
  "C19": ("exploration", "Go race detector over the concurrent workloads of the other checks (worker built with -race), reports deduplicated by innermost kubebrain function pair", "5 C19",
    "No data race report with a kubebrain frame was produced while the concurrent workloads (writers, readers, watchers joining/leaving/overflowing, compaction, async retry) ran under the race detector on memkv and Badger; counts of executions and report blocks in evidence.",
    "a race detector sees only executed interleavings; reports wholly inside the TiKV mock or the harness are listed, not counted"),
+ "C14": ("exploration", "complete step-interleaving enumeration on memkv against a register model (lock-step) + porcupine linearizability check of recorded concurrent lock histories", "5 C14",
+   "All interleavings of 2 and of 3 candidates x 2 acquire rounds were executed on memkv through the real resourcelock.Interface and agreed with a compare-and-swap register model step by step; sampled interleavings on Badger, the TiKV mock and locks obtained from real backends; recorded concurrent histories are linearizable as a CAS register (porcupine).",
+   "lease timing not modelled (candidates always try); enumeration complete only at the stated bound on memkv"),
+ "C15": ("exploration", "hand-over scenarios (fail-over and Badger restart) driven through the real lock, monitor comparing the new leader's revisions with an engine dump and the reference state", "5 C15",
+   "Held on generated old-leader histories with bursts of failed writes and lock renewals followed by a fail-over (all engines) or a close+reopen (Badger): the new leader's start and first revisions exceed every stored revision, guarded writes on existing keys succeed, earlier writes are listed.",
+   "election is driven in-process in client-go's call order and leader.go's on-elected action is applied by the harness"),
 }
 def cmd(p, tier): return "./bin/kbcheck %s --tier %s" % (p, tier)
 hooks = subprocess.run(["git","-C","/repo","log","--format=%H %s"],capture_output=True,text=True).stdout.splitlines()
